@@ -294,6 +294,24 @@ func checkIDHash(c *core.Ctx, fn *ssa.Function) {
 		if i == 0 {
 			continue // receiver
 		}
+		reached := valueReachesHashWrite(fn, p, 0)
+		c.Check(reached, "R12.1", "identity hashes parameter "+p.Name(), p.Pos(), "the parameter flows into a hash Write", "parameter "+p.Name()+" of AssignModuleID does not influence the module ID: modules compiled with different values share one cache entry")
+	}
+	checkIDListenersPerElement(c, fn)
+}
+
+// valueReachesHashWrite: the value p of fn flows into a hash Write – directly, through the ID scratch buffer, or through a
+// local closure / helper of the package that is given it (followed to depth 2).
+func valueReachesHashWrite(fn *ssa.Function, p ssa.Value, depth int) bool {
+	var writes []*ssa.Call
+	for _, b := range fn.Blocks {
+		for _, in := range b.Instrs {
+			if call, ok := in.(*ssa.Call); ok && call.Common().IsInvoke() && call.Common().Method.Name() == "Write" {
+				writes = append(writes, call)
+			}
+		}
+	}
+	{
 		tainted := map[ssa.Value]bool{}
 		bufTaintBlocks := map[*ssa.BasicBlock]bool{}
 		var work []ssa.Value
@@ -320,6 +338,20 @@ func checkIDHash(c *core.Ctx, fn *ssa.Function) {
 				case *ssa.Call:
 					if x.Common().IsInvoke() && x.Common().Method.Name() == "Write" {
 						reached = true
+					}
+					// handed to a closure or helper which hashes it
+					var callee *ssa.Function
+					if mc, ok := x.Common().Value.(*ssa.MakeClosure); ok {
+						callee, _ = mc.Fn.(*ssa.Function)
+					} else if f := x.Common().StaticCallee(); f != nil && f.Pkg == fn.Pkg {
+						callee = f
+					}
+					if callee != nil && callee.Blocks != nil && depth < 2 {
+						for ai, a := range x.Common().Args {
+							if a == v && ai < len(callee.Params) && valueReachesHashWrite(callee, callee.Params[ai], depth+1) {
+								reached = true
+							}
+						}
 					}
 					add(x)
 				case ssa.Value:
@@ -356,8 +388,11 @@ func checkIDHash(c *core.Ctx, fn *ssa.Function) {
 				}
 			}
 		}
-		c.Check(reached, "R12.1", "identity hashes parameter "+p.Name(), p.Pos(), "the parameter flows into a hash Write", "parameter "+p.Name()+" of AssignModuleID does not influence the module ID: modules compiled with different values share one cache entry")
+		return reached
 	}
+}
+
+func checkIDListenersPerElement(c *core.Ctx, fn *ssa.Function) {
 	// per-element hashing of listeners: a Write inside the loop that ranges over the listeners parameter, whose iteration
 	// stores a value derived from the element's nil test and one derived from the index
 	var lp *ssa.Parameter
